@@ -512,3 +512,61 @@ def pmap(fn, cases, jobs=None, chunksize=1):
     with ctx.Pool(jobs, initializer=_worker_init) as pool:
         for r in pool.imap_unordered(_call, [(fn, c) for c in cases], chunksize=chunksize):
             yield r
+
+
+# --------------------------------------------------------------------------- a second "real" mount (loop-mounted ext4 image)
+
+_loop_ok = None
+
+
+def can_loop_mount():
+    """True if an ext4 image can be created and loop-mounted (needed for cases that want a mount point which
+    fclones' own mount table - sysinfo - knows about; tmpfs mounts are invisible to it)."""
+    global _loop_ok
+    if _loop_ok is None:
+        try:
+            with LoopMount(os.path.join(EXT4, "fcv.loopprobe.%d" % os.getpid())):
+                _loop_ok = True
+        except Exception:
+            _loop_ok = False
+    return _loop_ok
+
+
+class LoopMount:
+    """Creates <mountpoint> backed by a fresh ext4 image next to it and mounts it; removes both on exit."""
+
+    def __init__(self, mountpoint, size_mb=24):
+        self.mp = mountpoint
+        self.img = mountpoint.rstrip("/") + ".img"
+        self.size_mb = size_mb
+        self.mounted = False
+
+    def __enter__(self):
+        os.makedirs(self.mp, exist_ok=True)
+        with open(self.img, "wb") as f:
+            f.truncate(self.size_mb << 20)
+        for cmd in (["mkfs.ext4", "-q", "-F", self.img], ["mount", "-o", "loop", self.img, self.mp]):
+            p = subprocess.run(cmd, stdout=subprocess.PIPE, stderr=subprocess.STDOUT)
+            if p.returncode != 0:
+                self.__exit__()
+                raise MachineryError("loop mount failed: %s: %s" % (" ".join(cmd), p.stdout.decode("utf-8", "replace")[-200:]))
+        self.mounted = True
+        return self
+
+    def __exit__(self, *a):
+        if self.mounted:
+            for _ in range(20):
+                if subprocess.run(["umount", self.mp], stdout=subprocess.PIPE, stderr=subprocess.PIPE).returncode == 0:
+                    break
+                time.sleep(0.1)
+            else:
+                subprocess.run(["umount", "-l", self.mp])
+            self.mounted = False
+        try:
+            os.unlink(self.img)
+        except OSError:
+            pass
+        try:
+            os.rmdir(self.mp)
+        except OSError:
+            pass
